@@ -21,7 +21,7 @@ fn project() -> VProject {
     VProject { codepage: 1252, modules: vec![VModule { name: "Module1".into(), stream_name: "Module1".into(), source: b"Sub A()\r\nEnd Sub\r\n".to_vec(), text_offset: 0, mode: 0, class_module: false, read_only: false, private: false }], refs: vec![VRef { name: "stdole".into(), kind: RefKind::Registered }], compat_version: false }
 }
 
-fn workbook(fmt: &str) -> Vec<u8> {
+pub fn workbook(fmt: &str) -> Vec<u8> {
     match fmt {
         "xlsx" => {
             let mut b = xlsx::XBook::default();
